@@ -289,6 +289,37 @@ HistV(steps, k, taint) == IF k > Len(steps) THEN {}
                           ELSE LET r == StepV(steps[k], taint) IN r.v \cup HistV(steps, k + 1, r.t)
 EvHistory(e) == HistV(e.steps, 1, {})
 
+(* ---- light events: calls recorded from the repository's own tests; TLC computes the reference values itself ---- *)
+SmallDom(m) == ~IsAtom(m) /\ WellDefined(m) /\ NoByRef(m)
+EvLEvaluate(e) ==
+  LET m == e.model  I == PairsFn(e.interp) IN
+  IF ~SmallDom(m) \/ ~(DOMAIN I \subseteq Ids(m)) THEN {"outside_domain"}
+  ELSE IF \A lf \in LeafIds(m) : lf \in DOMAIN I /\ Const(I[lf])
+       THEN Fail("val_equal", e.res = Iv(m, I))
+       ELSE IF DOMAIN I \subseteq LeafIds(m) /\ NoPrefixed(m) /\ \A lf \in DOMAIN I : I[lf][1] <= I[lf][2]
+            THEN Fail("sound", \A a \in { a \in Box(m) : \A i \in DOMAIN I : InIv(a[i], I[i]) } : InIv(Pt(m, a), e.res))
+            ELSE {}
+EvLNegate(e) ==
+  IF ~Claim(e.model) \/ IsAtom(e.neg) THEN {"outside_domain"}
+  ELSE Fail("complement_struct", LeafIds(e.neg) \subseteq LeafIds(e.model) /\ \A a \in Box(e.model) : Pt(e.neg, a) = 1 - Pt(e.model, a))
+       \cup Fail("safe_kept", (Safe(e.model) /\ BoolLeaves(e.model)) => Safe(e.neg))
+       \cup Fail("id_kept", (~e.model.gen) => (e.neg.id = e.model.id /\ ~e.neg.gen))
+EvLAssume(e) ==
+  LET m == e.model  D == PairsFn(e.dict) IN
+  IF ~SmallDom(m) \/ ~(DOMAIN D \subseteq Ids(m)) \/ \E i \in DOMAIN D : D[i][1] > D[i][2] THEN {"outside_domain"}
+  ELSE Fail("equiv_struct", \A a \in RestBox(m, D) : Iv(e.res, AsIv(a)) = Iv(m, Merge(D, AsIv(a))))
+EvLReduce(e) ==
+  IF ~SmallDom(e.model) THEN {"outside_domain"}
+  ELSE Fail("equiv_struct", \A a \in FreeBox(e.model) : Iv(e.res, AsIv(a)) = Iv(e.model, AsIv(a)))
+       \cup Fail("no_const_inside", NoConstInside(e.res))
+EvLToPoly(e) ==
+  LET m == e.model  cids == ColIds(e.cols) IN
+  IF ~Claim(m) THEN {"outside_domain"}
+  ELSE IF ~(cids \subseteq Ids(m) /\ (Ids(m) \ {m.id}) \subseteq cids /\ Cardinality(cids) = Len(e.cols)
+            /\ \A i \in DOMAIN e.rows : Len(e.rows[i].a) = Len(e.cols)) THEN {"cols_are_ids"}
+  ELSE IF e.active THEN Fail("iff_top", \A a \in Box(m) : MSat(e.rows, e.cols, Ext(m, a)) <=> (Pt(m, a) = 1))
+       ELSE Fail("inactive_feasible", \A a \in Box(m) : MSat(e.rows, e.cols, Ext(m, a)))
+
 (* ---- purity of the call on the object it was made on (C09, on every event that logs it) *)
 EvPure(e) == IF "after" \in DOMAIN e THEN Fail("store_unchanged", e.after = e.model) ELSE {}
 
@@ -307,6 +338,11 @@ Verdict(e) ==
      [] e.op = "b64"       -> EvB64(e)
      [] e.op = "b64poly"   -> EvB64Poly(e)
      [] e.op = "history"   -> EvHistory(e)
+     [] e.op = "l_evaluate" -> EvLEvaluate(e)
+     [] e.op = "l_negate"  -> EvLNegate(e)
+     [] e.op = "l_assume"  -> EvLAssume(e)
+     [] e.op = "l_reduce"  -> EvLReduce(e)
+     [] e.op = "l_to_poly" -> EvLToPoly(e)
      [] e.op = "exc"       -> {"no_exception"}
      [] e.op \in PolyOpNames -> PolyVerdict(e)
      [] e.op \in PrioOpNames -> PrioVerdict(e)
